@@ -306,7 +306,7 @@ Definition ukf_corr_gstep {n m} (usable : bool) (w : utw O) (h : M O n 1 -> M O 
            (y : M O m 1) : gstep n :=
   fun pred old =>
     if usable
-    then combine (map (fun c : gcomp O n => let o := C05_Model.ukf_correct_comp w h y R (gmean c) (gcov c) in
+    then combine (map (fun c : gcomp O n => let o := C05_Model.ukf_correct_comp n w h y R (gmean c) (gcov c) in
                                             mkGcomp (uo_mean o) (uo_cov o)) (map fst pred))
                  (map snd old)
     else pred.
@@ -314,7 +314,7 @@ Definition sukf_corr_gstep {n m} (usable : bool) (w : utw O) (h : M O n 1 -> M O
            (y : M O m 1) : gstep n :=
   fun pred old =>
     if usable
-    then combine (map (fun c : gcomp O n => let o := sukf_correct_comp w h y (NoiseReduced (s:=m) R) (gmean c) (gcov c) in
+    then combine (map (fun c : gcomp O n => let o := sukf_correct_comp n w h y (NoiseReduced (s:=m) R) (gmean c) (gcov c) in
                                             mkGcomp (so_mean o) (so_cov o)) (map fst pred))
                  (map snd old)
     else pred.
